@@ -64,7 +64,7 @@ func assetTol(pre, post *Snap, denom string) *big.Rat {
 	if as, ok := post.Assets[denom]; ok {
 		b = as.TotalTokens.BigInt()
 	}
-	t := new(big.Rat).SetInt(maxInt(a, b))
+	t := new(big.Rat).SetInt(maxInt(new(big.Int).Abs(a), new(big.Int).Abs(b)))
 	t.Mul(t, big.NewRat(20, 1_000_000_000_000_000_000))
 	amp := amplification(pre, denom)
 	if a2 := amplification(post, denom); a2.Cmp(amp) > 0 {
@@ -178,7 +178,7 @@ func (o OracleC04) After(x *Exec, op *Op, res *Res) {
 	if _, ok := pre.Assets[denom]; !ok {
 		return
 	}
-	if degenerateAsset(pre, denom) || orphanedValidator(pre, denom) {
+	if x.PrecisionCollapsed(denom) || degenerateAsset(pre, denom) || orphanedValidator(pre, denom) {
 		// Listed finding F-C04a: value without owner (staked total with zero validator
 		// shares after a 100% slash of every share-holding validator, or a validator
 		// whose delegator shares were all removed by redelegation slashing). The next
@@ -339,7 +339,7 @@ func (o OracleC15) After(x *Exec, op *Op, res *Res) {
 			break
 		}
 		x.Label("c15:redelegated")
-		if degenerateAsset(pre, op.Denom) || orphanedValidator(pre, op.Denom) {
+		if x.PrecisionCollapsed(op.Denom) || degenerateAsset(pre, op.Denom) || orphanedValidator(pre, op.Denom) {
 			x.Label("c15:ownerless-value-state")
 			o.compareStore(x, post, "after redelegate")
 			break
